@@ -23,6 +23,8 @@ ASSUMPTIONS = [
     "A-SSL: OpenSSL honours the SSL_read/SSL_write retry contract, emits application data only after the handshake, and "
     "its records are confidential (the check only sees that a random 32-byte marker never appears in the raw stream)",
     "A-TCP: loopback is a lossless FIFO",
+    "A-CLOCK / A-SSL fail-stop (C07 for the TLS glue): the limited-budget theorem assumes a wait(t>=0) returns within t, send/recv take no time, "
+    "and that after a failed BIO callback the engine makes no further BIO call and reports no success, and never writes zero bytes (true of libssl)",
     "handshake completion is a theorem only for the restriction handshake_completes_partial (both endpoints synchronous, "
     "timeout 0, round-robin polling schedule, reference engine Hs.engine, healthy channel with arbitrary read segmentation); "
     "async endpoints, unlimited/limited timeouts, other call orders, short/refused writes and the agreement of the reference "
@@ -182,10 +184,10 @@ LEVEL_TEXT = ("Machine-checked theorems about the library's TLS glue (Read/Write
               "segmentation; explicit bound 2(k1+k2+k3+3) rounds; no call throws; decreasing measure round_progress), followed by the payload phase "
               "for the call order that exposed F7 (send_after_idle_receive_flows) and the refutation of the pre-319faf2 glue in the same "
               "composition (legacy_stall_state_reached, legacy_polling_schedule_stalls: handshake done, channels empty for ever); for the other "
-              "pairings / timeout modes / call orders it is established by the exhaustive implementation matrix only. Tied to /repo on every run: the real sockets run the pairing matrix against real OpenSSL; "
+              "pairings / timeout modes / call orders it is established by the exhaustive implementation matrix only. C07 for the TLS glue (DESIGN 0.14): for every engine, world, starting state and number of rounds / BIO calls / partial sends, with every wait read off a logging world (logging_is_transparent): timeout 0 issues only zero waits and lets no time pass (tls_zero_never_blocks); a negative timeout issues only unlimited waits and, with a blocking engine, never returns nothing / a short count (tls_unlimited_waits, tls_unlimited_receive_never_nothing, tls_unlimited_send_complete); a non-negative budget never turns negative in any world (tls_budget_never_negative); a positive timeout T: every wait argument t satisfies 0 <= t <= T - elapsed and the call returns by entry+T (tls_limited_budget, under ClockOk and Engine.FailStop); the seeded BioRead-without-write-back is refuted as a counter-model with total wait 2T (seeded_bioRead_doubles_the_wait) and each engine hypothesis is shown necessary (stale_budget_after_callback_failure, stale_budget_after_empty_write, unlimited_receive_needs_blocking_engine). Tied to /repo on every run: the real sockets run the pairing matrix against real OpenSSL; "
               "every SSL_read/SSL_write_ex answer, BIO callback and poll/send/recv is replayed into the model, which must make the "
               "same calls and return the same results; Spec.C18 is evaluated on the raw bytes and API results.")
-LEVEL_NOTE = ("handshake_completes is proved ONLY in the restricted form handshake_completes_partial (sync/sync, timeout 0, polling "
+LEVEL_NOTE = ("The C07 budget theorems for the TLS glue assume A-CLOCK (ClockOk: clock monotone across waits, a wait(t>=0) returns within t, send/recv on the non-blocking descriptor take no time) and, for T>0, A-SSL fail-stop (after a BIO callback returned -1 libssl makes no further BIO call and reports no success; BIO_write is never invoked with 0 bytes): UnderDeadline/BioWrite do not write the budget back on the exception path and a zero-length SendSome that times out restores the full budget - latent, unreachable with libssl, witnesses in Props/C18.lean. handshake_completes is proved ONLY in the restricted form handshake_completes_partial (sync/sync, timeout 0, polling "
               "schedule, reference engine, healthy channel, any read segmentation); the pre-ee81033 variant is refuted at the single-endpoint "
               "level only (the healthy channel of the composition never refuses a write). Trusted: Lean kernel; axioms propext/Quot.sound/Classical.choice; the hand-written model (correspondence on the "
               "generated matrix only); harness, vos shim and the OpenSSL interposers. Confidentiality and the TLS protocol itself are "
